@@ -9,7 +9,9 @@ import OutlineModel.Gen.Ciphers
         key    = <idhex>:<cipherhex>:<secrethex>[:<port>]    (port only in legacy)
    cfg auth lk=<hex of "tcp/addr"> cipher=<canonical index> secret=<hex>  -> id=<hex> | none
    cfg bound                                                             -> sorted, comma-separated bound listener keys (hex) | -
-   cfg hammer                                                            -> refused=0 unauth=0
+   cfg hammer                                                            -> refused=0 unauth=0 lost=0 dup=0
+   cfg relays                                                            -> broken=0
+   cfg stop                                                              -> ok
 -/
 namespace OutlineModel.Drive.Config
 open OutlineModel OutlineModel.Config OutlineModel.Util
@@ -88,7 +90,11 @@ def step (d : St) (args : List String) : St × String :=
   | ["bound"] =>
     let ks := (d.srv.mgr.eraseDups.map strToHex).toArray.qsort (· < ·) |>.toList
     (d, if ks.isEmpty then "-" else ",".intercalate ks)
-  | ["hammer"] => (d, "refused=0 unauth=0")
+  | ["hammer"] => (d, "refused=0 unauth=0 lost=0 dup=0")
+  | ["relays"] => (d, "broken=0")
+  | ["stop"] =>
+    let (m, _) := releaseAll d.srv.mgr (d.srv.cur.map (·.1))
+    ({ d with srv := { mgr := m, cur := [] } }, "ok")
   | _ => (d, "bad-op")
 
 end OutlineModel.Drive.Config
